@@ -520,7 +520,7 @@ func (helper *reverseScanHelper) finishEntry() {
 	reverse(helper.entry.values)
 	helper.entry.key = NewMvccKey(helper.currKey)
 	val, err := helper.entry.Get(helper.startTS, helper.isoLevel, helper.resolvedLocks)
-	if len(val) != 0 || err != nil {
+	if val != nil || err != nil {
 		helper.pairs = append(helper.pairs, Pair{
 			Key:   helper.currKey,
 			Value: val,
